@@ -211,6 +211,11 @@ class C14(Prop):
             if prev is not None and lab[0] == 'Error':
                 if o['errors'] != prev['errors'] + 1:
                     return 'a failed request did not raise the error count'
+                if not o['recalced']:
+                    want = max(0, prev['cost'] + c['error_base'] + lab[1])
+                    if abs(o['cost'] - want) > 1e-6 * (1 + abs(want)):
+                        return ('a failure was not charged the base error cost plus the cost of its own '
+                                f"(cost went from {prev['cost']} to {o['cost']}, base {c['error_base']}, specific {lab[1]})")
             if o['recalced'] and limiting:
                 x = o['last'] + o['extra']
                 evals.append((x, o['target']))
